@@ -10,6 +10,8 @@ REPO = os.environ.get("VERIF_REPO", "/repo")
 ENV = dict(os.environ, GOFLAGS="-mod=mod", GOPROXY="off", GOSUMDB="off", GOTOOLCHAIN="local", GOWORK="off")
 DIRS = ["", "wsjson", "internal/bpool", "internal/errd", "internal/xsync", "internal/util"]
 PROPS = ["C%02d" % i for i in range(1, 21)]
+if os.environ.get("ONLY_PROP"):
+    PROPS = [os.environ["ONLY_PROP"]]
 
 
 def run(item):
@@ -62,8 +64,11 @@ def main():
     lines = ["# Whole-body extraction of every function vs. checks", "",
              "Produced by tools/wrapmatrix.py: each function in turn becomes `func F(args) { return FImpl0(args) }` with the old body in the new helper.",
              "", "functions: %d; silent: %d; alarms: %s" % (len(res), len(res) - len(alarms), alarms or "none")]
-    if not only:
+    if not only and not os.environ.get("ONLY_PROP"):
         open(os.path.join(VERIF, "benign", "WRAP_RESULTS.md"), "w").write("\n".join(lines) + "\n")
+    if os.environ.get("SUMMARY_JSON"):
+        import json
+        json.dump({"functions": len(res), "silent": len(res) - len(alarms), "alarms": {n: res[n]["rules"] for n in alarms}}, open(os.environ["SUMMARY_JSON"], "w"), indent=1)
     print(lines[-1])
     for k, v in byrule.most_common():
         print("  %3d %s" % (v, k))
